@@ -41,7 +41,8 @@ from lib import cmd, outcome, is_error, import_impl, Sym
 
 META = dict(
     technique='Coq theorems (shuffle_is_signed_renaming, validate_spec, shuffle_placement, model_count_preserved, '
-              'fixed_is_identity) + extracted-model differential check with recorded random draws as witness',
+              'fixed_is_identity; cnfshuffle_main: the whole tool over any stream of primitive draws, Fisher-Yates always a permutation) '
+              '+ extracted-model differential check with recorded random draws as witness, byte for byte for the tool',
     category='proof',
     text='Machine-checked theorems state, for every CNF and every explicit or drawn flips / variable permutation / clause '
          'permutation, that the model of Shuffle accepts exactly the +-1 vectors and permutations of the right length, and '
@@ -59,7 +60,7 @@ META = dict(
 )
 RULE = ('one case = one call of Shuffle / one run of a command line tool; non-trivial when the formula has a non-empty '
         'clause; distinct = distinct (stream, formula, arguments or seed) keys')
-TRUSTED = ['harness/c09_child.py: wrapper of random.choice/random.shuffle in the child process',
+TRUSTED = ['harness/c09_child.py: wrapper of random.choice/random.shuffle in the child process', 'harness/c09_main_child.py: recorder subclass of random.Random (getrandbits results in call order)',
            'Python reference re-computation and renaming search used only after a disagreement']
 
 MSG = {'flips': 'polarity_flips is either', 'variables': 'variables_permutation is either',
